@@ -320,11 +320,11 @@ func checkC02() fw.Check {
 		MinNontrivial: 40,
 		Assumptions:   []string{"wirefmt encoder and refmatch reference matcher are trusted", "serial variants: histories keep every reply inside its own window", "Linux build"},
 		Gen: func(tier string, seed int64) []fw.Case {
-			wins, bases := windowsQuick[:2], basesQuick
-			reps := 1
+			wins, bases := windowsThorough[:5], basesQuick
+			reps := 2
 			if tier == "thorough" {
 				wins, bases = windowsThorough, basesThorough
-				reps = 2
+				reps = 5
 			}
 			var cases []fw.Case
 			for _, v := range refmatch.Variants {
@@ -334,9 +334,7 @@ func checkC02() fw.Check {
 					}
 					for wi, w := range wins {
 						for bi, b := range bases {
-							if tier != "thorough" && (wi+bi)%2 == 1 {
-								continue // quick: each window with one base
-							}
+							_, _ = wi, bi
 							v, fm, w, b := v, fm, w, b
 							id := fmt.Sprintf("C02/%s/%s/%d-%d/%s", v.Name, fm.name, w.first, w.last, b.name)
 							cases = append(cases, fw.Case{ID: id, Bubble: true, Run: func(c *fw.Ctx) {
